@@ -358,6 +358,19 @@ pub fn check_case(c: &Case) -> Vec<CaseResult> {
             Ok(Err(e)) => Err(e.to_string()),
         };
         by_index[qi] = Some(got.clone());
+        // the options mean the same to the reader with location information
+        let got_datum: Result<MV, String> = match catch(|| lexpr::datum::from_str_custom(&input, q.to_lexpr())) {
+            Err(pm) => Err(format!("panic: {}", pm)),
+            Ok(Ok(d)) => Ok(MV::from_value(d.value())),
+            Ok(Err(e)) => Err(e.to_string()),
+        };
+        if got_datum != got {
+            out.push(Err(Failure::new(
+                format!("C08 datum-api-differs class={} pos={}", cls.trim_start_matches("tok:"), if c.position == 0 { "top" } else { "nested" }),
+                format!("{:?} under parser options #{}: the value API gives {}, the datum API {}", input, qi, short(&got), short(&got_datum)),
+                case(),
+            )));
+        }
         // (1)/(2) classification in context
         let tok_expect = classify(&c.token, &q);
         let expect = expected_in_context(&tok_expect, c.position, &q);
